@@ -764,7 +764,7 @@ def violated(case):
     ren = [(e[1], tuple(e[2])) for e in subterms(root)
            if e[0] == "acc" and e[2] and all(ix[0] == "var" for _, ix in e[2])]
     for a in set(ren):
-        if ren.count(a) > 1 and any(ix[1] in rebound for _, ix in a[1]):
+        if ren.count(a) > 1 and free_vars(("acc", a[0], list(a[1])), leaves) & rebound:
             out.add("tape-key-collision")
     return out
 
